@@ -22,6 +22,8 @@ from ...portref import PortRef
 from ...bundle import BundleInstance, BundleRef, AnonymousBundle
 from ...signal import PortDir, Signal, Visibility
 from ...noconn import NoConn
+from ...slice import Slice
+from ...concat import Concat
 from ..helpers.resolve_ref_types import update_ref_deps
 
 # Import the base class
@@ -31,7 +33,7 @@ from .base import ElabPass
 # i.e. the things which we are resolve `PortRef`s *to*.
 # If we find one of these connected to a group of connected ports,
 # it becomes the replacement connection for all of them.
-Source = Union[Signal, BundleInstance, BundleRef, AnonymousBundle]
+Source = Union[Signal, Slice, Concat, BundleInstance, BundleRef, AnonymousBundle]
 
 # Union of the types which can serve as (generalized) Ports:
 # either Signals or Bundle Instances
